@@ -20,6 +20,18 @@ def upd {σ : Type} (st : Int → σ) (k : Int) (x : σ) : Int → σ := fun j =
 def gstep {σ α : Type} (f : σ → α → σ) (st : Int → σ) (r : Int × α) : Int → σ :=
   if r.1 < 0 then st else upd st r.1 (f (st r.1) r.2)
 
+/-- the same step written so that compiled code evaluates the group's previous state only for the group that is
+asked for (the compiler eta-expands `gstep` to four arguments: as written above every lookup would evaluate the
+update *and* fall through to the older state - exponential in the number of rows) -/
+def gstepFast {σ α : Type} (f : σ → α → σ) (st : Int → σ) (r : Int × α) : Int → σ :=
+  fun j => if r.1 < 0 then st j else if j = r.1 then f (st r.1) r.2 else st j
+
+/-- proved replacement used by the compiler for the driver executable (not an `implemented_by`: the kernel checks it) -/
+@[csimp] theorem gstep_eq_gstepFast : @gstep = @gstepFast := by
+  funext σ α f st r j
+  unfold gstep gstepFast upd
+  split <;> rfl
+
 def groupFold {σ α : Type} (f : σ → α → σ) (init : Int → σ) (rows : List (Int × α)) : Int → σ :=
   rows.foldl (gstep f) init
 
